@@ -1,2 +1,111 @@
--- line-protocol driver for C20 (stub; replaced when the property is built)
-def main : IO Unit := IO.println "stub"
+import Verif.Model.EAB
+/-!
+  Line-protocol driver for C20 (external account binding).
+
+  One history or one schedule per line, `key=value` fields separated by single spaces:
+
+    hist K=<key>,<key>…  R=<req>|<req>…                 sequential history  (`runHist`)
+    conc K=<key>,<key>…  R=<req>|<req>…  S=<digits>     schedule, digit = thread taking its next step (`runSched`)
+
+    key := id:prov:hasSecret:bound:account              (0/1 flags; account 0 = none)
+    req := prov,requireEAB,outerKey,outerUrl,payloadOk,onlyExisting,bindingParses,<binding>
+    binding := -  |  nsigs.algMac.kid.hasNonce.url.macOk.payloadKey      (url, payloadKey: `!` = absent / not a JWK)
+
+  `K=-` is the empty store. The store starts with no accounts.
+  Output:  <resp>;<resp>… K=<id>:<bound><hasSecret>:a<n>,…   with
+    resp := 201:a<n>:k<via> | 200:a<n> | 400:malformed | 400:externalAccountRequired | 401:unauthorized
+          | 500:serverInternal | 400:accountDoesNotExist | -            (`-` = the thread has not answered)
+  Account ids are renumbered in order of first appearance in the output (the real ids are random).
+-/
+open Verif Verif.EAB
+
+namespace C20
+
+def bool? (t : String) : Option Bool :=
+  if t = "1" then some true else if t = "0" then some false else none
+
+def optNat? (t : String) : Option (Option Nat) :=
+  if t = "!" then some none else t.toNat?.map some
+
+def key? (t : String) : Option EKey :=
+  match t.splitOn ":" with
+  | [a, b, c, d, e] => do
+    pure { id := (← a.toNat?), prov := (← b.toNat?), hasSecret := (← bool? c), bound := (← bool? d), account := (← e.toNat?) }
+  | _ => none
+
+def binding? (t : String) : Option (Option Binding) :=
+  if t = "-" then some none else
+  match t.splitOn "." with
+  | [a, b, c, d, e, f, g] => do
+    pure (some { nsigs := (← a.toNat?), algMac := (← bool? b), kid := (← c.toNat?), hasNonce := (← bool? d),
+                 url := (← optNat? e), macOk := (← bool? f), payloadKey := (← optNat? g) })
+  | _ => none
+
+def req? (t : String) : Option Req :=
+  match t.splitOn "," with
+  | [a, b, c, d, e, f, g, h] => do
+    pure { prov := (← a.toNat?), requireEAB := (← bool? b), outerKey := (← c.toNat?), outerUrl := (← d.toNat?),
+           payloadOk := (← bool? e), onlyExisting := (← bool? f), bindingParses := (← bool? g),
+           binding := (← binding? h) }
+  | _ => none
+
+def lookup (kv : List (String × String)) (k : String) : Option String :=
+  (kv.find? (·.1 = k)).map (·.2)
+
+def errS : Err → String
+  | .malformed => "400:malformed"
+  | .externalAccountRequired => "400:externalAccountRequired"
+  | .unauthorized => "401:unauthorized"
+  | .serverInternal => "500:serverInternal"
+  | .accountDoesNotExist => "400:accountDoesNotExist"
+
+/-- renumbering of account ids by first appearance -/
+def renum (seen : List Nat) (a : Nat) : List Nat × Nat :=
+  match seen.idxOf? a with
+  | some i => (seen, i + 1)
+  | none => (seen ++ [a], seen.length + 1)
+
+def respS (seen : List Nat) : Option Resp → List Nat × String
+  | none => (seen, "-")
+  | some (.err e) => (seen, errS e)
+  | some (.existing a) => let (s, n) := renum seen a; (s, s!"200:a{n}")
+  | some (.created a v) => let (s, n) := renum seen a; (s, s!"201:a{n}:k{v}")
+
+def render (st : State) (rs : List (Option Resp)) : String :=
+  let (seen, outs) := rs.foldl (fun (acc : List Nat × List String) r =>
+    let (s, o) := respS acc.1 r; (s, acc.2 ++ [o])) ([], [])
+  let ks := st.keys.map fun k =>
+    let a := if k.account = 0 then "a0" else
+      match seen.idxOf? k.account with
+      | some i => s!"a{i + 1}"
+      | none => "a?"
+    s!"{k.id}:{if k.bound then 1 else 0}{if k.hasSecret then 1 else 0}:{a}"
+  ";".intercalate outs ++ " K=" ++ (if ks.isEmpty then "-" else ",".intercalate ks)
+
+def digits (t : String) : Option (List Nat) :=
+  t.toList.mapM fun c => if '0' ≤ c ∧ c ≤ '9' then some (c.toNat - 48) else none
+
+def eval (line : String) : Option String := do
+  let fs := fields line
+  let kind ← fs.head?
+  let kv := fs.filterMap fun f =>
+    match f.splitOn "=" with
+    | [k, v] => some (k, v)
+    | _ => none
+  let kt ← lookup kv "K"
+  let keys ← if kt = "-" then some [] else (kt.splitOn ",").mapM key?
+  let reqs ← ((← lookup kv "R").splitOn "|").mapM req?
+  let st : State := { keys, accts := [], next := 1 }
+  match kind with
+  | "hist" =>
+    let (s, rs) := runHist st reqs
+    pure (render s (rs.map some))
+  | "conc" =>
+    let sched ← digits (← lookup kv "S")
+    let (s, ts) := runSched st (reqs.map (⟨·, .start⟩)) sched
+    pure (render s (ts.map Thread.resp))
+  | _ => none
+
+end C20
+
+def main : IO Unit := Verif.lineLoop fun l => (C20.eval l).getD "parse-error"
